@@ -25,6 +25,7 @@ def tlcpParams : Params :=
     alpnServerFirst := Facts.tlcp.negAlpnServerFirst,
     clientEcdheGuard := Facts.tlcp.negHelloEcdheGuard,
     encCertNeedsSig := Facts.tlcp.negEncCertNeedsSigCert,
+    resumeHonoursPolicy := Facts.tlcp.negResumePolicyGuards && Facts.tlcp.negResumeReprocessesCerts,
     cloneMissing := Facts.tlcp.cloneMissing }
 
 def dtlcpParams : Params :=
@@ -37,6 +38,7 @@ def dtlcpParams : Params :=
     alpnServerFirst := Facts.dtlcp.negAlpnServerFirst,
     clientEcdheGuard := Facts.dtlcp.negHelloEcdheGuard,
     encCertNeedsSig := Facts.dtlcp.negEncCertNeedsSigCert,
+    resumeHonoursPolicy := Facts.dtlcp.negResumePolicyGuards && Facts.dtlcp.negResumeReprocessesCerts,
     cloneMissing := Facts.dtlcp.cloneMissing }
 
 def factsP : Stack → Params
